@@ -48,6 +48,7 @@ import (
 
 	"github.com/gopcua/opcua"
 	"github.com/gopcua/opcua/id"
+	"github.com/gopcua/opcua/server"
 	"github.com/gopcua/opcua/ua"
 	"github.com/gopcua/opcua/uacp"
 	"github.com/gopcua/opcua/uasc"
@@ -334,20 +335,9 @@ func newFixture() (*fixtureT, error) {
 	}
 	f.legit = cs.AuthenticationToken
 	f.issued[f.legit.String()] = true
-	a := f.legitCh.send(&ua.CreateSubscriptionRequest{RequestedPublishingInterval: 1000, RequestedLifetimeCount: 1_000_000, RequestedMaxKeepAliveCount: 100_000,
-		MaxNotificationsPerPublish: 0, PublishingEnabled: true}, f.legit)
-	sub, ok := a.resp.(*ua.CreateSubscriptionResponse)
-	if !ok || a.err != nil {
-		return nil, fmt.Errorf("CreateSubscription: %T %v", a.resp, a.err)
+	if err := f.subscribe(); err != nil {
+		return nil, err
 	}
-	f.subID = sub.SubscriptionID
-	a = f.legitCh.send(&ua.CreateMonitoredItemsRequest{SubscriptionID: f.subID, TimestampsToReturn: ua.TimestampsToReturnBoth,
-		ItemsToCreate: []*ua.MonitoredItemCreateRequest{monitoredItemCreate(f.vars[2], 7)}}, f.legit)
-	mi, ok := a.resp.(*ua.CreateMonitoredItemsResponse)
-	if !ok || a.err != nil || len(mi.Results) != 1 || mi.Results[0].StatusCode != ua.StatusOK {
-		return nil, fmt.Errorf("CreateMonitoredItems: %T %v", a.resp, a.err)
-	}
-	f.itemID = mi.Results[0].MonitoredItemID
 	// foreign token: a session created and activated on server B
 	chB, err := openRaw(f.b.URL)
 	if err != nil {
@@ -367,7 +357,6 @@ func newFixture() (*fixtureT, error) {
 	if f.raw, err = openRaw(f.a.URL); err != nil {
 		return nil, err
 	}
-	time.Sleep(50 * time.Millisecond) // initial change notification of the monitored item
 	f.baseline = f.snapshot()
 	return f, nil
 }
@@ -716,16 +705,53 @@ func run(c caseT, test string) (v verdict) {
 	return
 }
 
-// restore brings the fixture back to the baseline after a detected effect (so that shrinking and later cases stay meaningful).
+// restore repairs the fixture after a detected effect (so that shrinking and
+// later cases stay meaningful): the variables get their initial values back,
+// the legitimate subscription and its monitored item are re-created if they
+// are gone, and the repaired state becomes the new baseline.
 func (f *fixtureT) restore() {
-	fixOnce = sync.Once{}
-	old := f
-	go func() {
-		old.raw.close()
-		old.legitCh.close()
-		old.a.Close()
-		old.b.Close()
-	}()
+	time.Sleep(30 * time.Millisecond) // let background deletions finish
+	for i, v := range f.vars {
+		if n := f.a.S.Node(v); n != nil {
+			_ = n.SetAttribute(ua.AttributeIDValue, server.DataValueFromValue(int32(100+i)))
+		}
+	}
+	ss := f.a.S.SubscriptionService
+	ss.Mu.Lock()
+	_, subOK := ss.Subs[f.subID]
+	ss.Mu.Unlock()
+	ms := f.a.S.MonitoredItemService
+	ms.Mu.Lock()
+	_, itemOK := ms.Items[f.itemID]
+	ms.Mu.Unlock()
+	if !subOK || !itemOK {
+		if err := f.subscribe(); err != nil {
+			// cannot repair in place: build a new fixture on next use
+			fixOnce = sync.Once{}
+			return
+		}
+	}
+	f.baseline = f.snapshot()
+}
+
+// subscribe creates the legitimate subscription and its monitored item.
+func (f *fixtureT) subscribe() error {
+	a := f.legitCh.send(&ua.CreateSubscriptionRequest{RequestedPublishingInterval: 1000, RequestedLifetimeCount: 1_000_000, RequestedMaxKeepAliveCount: 100_000,
+		MaxNotificationsPerPublish: 0, PublishingEnabled: true}, f.legit)
+	sub, ok := a.resp.(*ua.CreateSubscriptionResponse)
+	if !ok || a.err != nil {
+		return fmt.Errorf("CreateSubscription: %T %v", a.resp, a.err)
+	}
+	f.subID = sub.SubscriptionID
+	a = f.legitCh.send(&ua.CreateMonitoredItemsRequest{SubscriptionID: f.subID, TimestampsToReturn: ua.TimestampsToReturnBoth,
+		ItemsToCreate: []*ua.MonitoredItemCreateRequest{monitoredItemCreate(f.vars[2], 7)}}, f.legit)
+	mi, ok := a.resp.(*ua.CreateMonitoredItemsResponse)
+	if !ok || a.err != nil || len(mi.Results) != 1 || mi.Results[0].StatusCode != ua.StatusOK {
+		return fmt.Errorf("CreateMonitoredItems: %T %v", a.resp, a.err)
+	}
+	f.itemID = mi.Results[0].MonitoredItemID
+	time.Sleep(50 * time.Millisecond) // initial change notification of the monitored item
+	return nil
 }
 
 func statusName(s ua.StatusCode) string {
